@@ -63,7 +63,7 @@ def strategy():
     # objects then carry different names in different members
     return histgen.histories(KINDS, max_ops=18, n_variants=(2, 4),
                              gen_kw=dict(max_modules=3, max_tasks=3, kinds=gen.KINDS_ALL),
-                             variant_kinds=histgen.CONFIG_ONLY + ['rename_mount'] * 6)
+                             variant_kinds=histgen.CONFIG_ONLY + ['rename_mount'] * 6, name_mode=True)
 
 
 def plan(tier):
